@@ -271,12 +271,18 @@ func xmlAddKeyElements(s Entry, parent *etree.Element) {
 	// the keys do match the levels up in the tree in reverse order
 	// hence we init i with levelUp and count down
 	for i := levelsUp - 1; i >= 0; i-- {
-		// skip if the element already exists
-		existingElem := parent.SelectElement(schemaKeys[i])
-		if existingElem == nil {
+		// the key elements come first, in the order of the key statement (RFC 7950, 7.8.5):
+		// going from the last key to the first, every key is put in front of what is there
+		keyElem := parent.SelectElement(schemaKeys[i])
+		if keyElem == nil {
 			// and finally we create the patheleme key attributes
-			parent.CreateElement(schemaKeys[i]).SetText(treeElem.PathName())
-			treeElem = treeElem.GetParent()
+			keyElem = etree.NewElement(schemaKeys[i])
+			keyElem.SetText(treeElem.PathName())
+		} else {
+			parent.RemoveChild(keyElem)
 		}
+		parent.InsertChildAt(0, keyElem)
+		// every key is one level of the tree, whether its element existed or not
+		treeElem = treeElem.GetParent()
 	}
 }
